@@ -107,7 +107,7 @@ DoOp(o, c) ==
     /\ (o.op = "movein" /\ ~RenameTwice) => ~PendingRn(c)      \* ... nor under a re-used inode number
     /\ rec \/ NonRecOK(o)
     /\ c \in (IF InodeReuse /\ Creates(o) THEN freed ELSE {}) \cup {nextid}
-    /\ freed' = (freed \ {c}) \cup FreedBy(o)
+    /\ freed' = IF InodeReuse THEN (freed \ {c}) \cup FreedBy(o) ELSE {}
     /\ fs' = ApplyOp(fs, o) /\ ino' = InoAfter(o, c)
     /\ nextid' = nextid + (IF o.op \in {"mkfile", "mkdir"} THEN 1 ELSE IF o.op = "movein" THEN 3 ELSE 0)
     /\ pend' = pend \o Native(o, c)
@@ -132,7 +132,7 @@ Callback(n, sticky) ==
     /\ batch = <<>> /\ n \in 1..Len(pend) /\ alive
     /\ (~SplitPairs /\ n < Len(pend)) => ~(pend[n].pr = "old")
     /\ sticky \in (IF StickyCreated THEN BOOLEAN ELSE {FALSE})
-    /\ LET d == Deliver(SubSeq(pend, 1, n), 1, ann, sticky) IN batch' = d[1] /\ ann' = d[2]
+    /\ LET d == Deliver(SubSeq(pend, 1, n), 1, ann, sticky) IN batch' = d[1] /\ ann' = (IF StickyCreated THEN d[2] ELSE {})
     /\ pend' = SubSeq(pend, n + 1, Len(pend))
     /\ phase' = "coal"
     /\ UNCHANGED <<start, rec, fs, ino, nextid, nops, view, out, hot, lop, lout, alive, rootgone, freed>>
